@@ -611,3 +611,90 @@ def _():
             if len(fails) >= 3:
                 break
     return dict(cases=0x10000 - 2048, failures=fails)
+
+
+# -- converter constructors (C11: "a binary sink with any codec ... yields the same characters" rests on the codec and the sink kind reaching the writer) -------
+_la_init = stub("pdfminer.converter:PDFLayoutAnalyzer.__init__", ["self", "rsrcmgr", "pageno", "laparams"])
+_la_init.defaults = {"pageno": 1, "laparams": None}
+_isbin = stub("pdfminer.converter:PDFConverter._is_binary_stream", ["outfp"], T.Bool())
+c = contract("pdfminer.converter:PDFConverter.__init__", props=["C11"])
+c.param("self", T.Obj("pdfminer.converter:PDFConverter")).param("rsrcmgr", T.Const("rm")).param("outfp", T.Const("the-sink")).param("codec", T.OneOf("utf-8", "latin-1", "utf-16", None))
+c.param("pageno", T.OneOf(1, 7)).param("laparams", T.OneOf(None, "the-laparams"))
+c.skip_cross = True
+c.inline = True
+c.stubs = {"pdfminer.converter:PDFLayoutAnalyzer.__init__": _la_init, "pdfminer.converter:PDFConverter._is_binary_stream": _isbin}
+c.mod("self.*")
+c.ens("sink-codec-and-sink-kind-stored-page-number-and-layout-parameters-handed-to-the-analyzer-no-encoder-yet", lambda self, outfp, codec, pageno, laparams, trace: (
+    len(trace) == 2 and trace[0][0].endswith("PDFLayoutAnalyzer.__init__") and trace[0][1]["rsrcmgr"] == "rm" and trace[0][1]["pageno"] == pageno
+    and trace[0][1]["laparams"] == laparams and trace[1][0].endswith("_is_binary_stream") and trace[1][1]["outfp"] == outfp
+    and self.outfp == outfp and self.codec == codec and self._encoder is None) and Iff(self.outfp_binary, trace[1][1]["__result__"]))
+
+_pc_init = stub("pdfminer.converter:PDFConverter.__init__", ["self", "rsrcmgr", "outfp", "codec", "pageno", "laparams"])
+_pc_init.defaults = {"codec": "utf-8", "pageno": 1, "laparams": None}
+c = contract("pdfminer.converter:TextConverter.__init__", props=["C11"])
+c.param("self", T.Obj("pdfminer.converter:TextConverter")).param("rsrcmgr", T.Const("rm")).param("outfp", T.Const("the-sink")).param("codec", T.OneOf("utf-8", "latin-1", "utf-16"))
+c.param("pageno", T.OneOf(1, 7)).param("laparams", T.OneOf(None, "the-laparams")).param("showpageno", T.Bool()).param("imagewriter", T.OneOf(None, "the-image-writer"))
+c.skip_cross = True
+c.inline = True
+c.stubs = {"pdfminer.converter:PDFConverter.__init__": _pc_init}
+c.mod("self.*")
+c.ens("every-argument-reaches-the-base-class-or-its-own-attribute", lambda self, rsrcmgr, outfp, codec, pageno, laparams, showpageno, imagewriter, trace: (
+    len(trace) == 1 and trace[0][1]["rsrcmgr"] == rsrcmgr and trace[0][1]["outfp"] == outfp and trace[0][1]["codec"] == codec and trace[0][1]["pageno"] == pageno
+    and trace[0][1]["laparams"] == laparams and self.imagewriter == imagewriter) and Iff(self.showpageno, showpageno))
+
+
+def _pc_effect(I, bound):
+    bound["self"].f.update(codec=bound["codec"], outfp=bound["outfp"], outfp_binary=I.ghosts["binary"])
+
+
+_pc_init2 = stub("pdfminer.converter:PDFConverter.__init__", ["self", "rsrcmgr", "outfp", "codec", "pageno", "laparams"])
+_pc_init2.defaults = {"codec": "utf-8", "pageno": 1, "laparams": None}
+_pc_init2.effect = _pc_effect
+_wh = stub("pdfminer.converter:XMLConverter.write_header", ["self"])
+c = contract("pdfminer.converter:XMLConverter.__init__", props=["C11"])
+c.param("self", T.Obj("pdfminer.converter:XMLConverter")).param("rsrcmgr", T.Const("rm")).param("outfp", T.Const("the-sink")).param("codec", T.OneOf("utf-8", "utf-16", None, ""))
+c.param("pageno", T.OneOf(1, 7)).param("laparams", T.OneOf(None, "the-laparams")).param("imagewriter", T.OneOf(None, "the-image-writer")).param("stripcontrol", T.Bool())
+c.ghost("binary", T.OneOf(True, False))
+c.skip_cross = True
+c.inline = True
+c.stubs = {"pdfminer.converter:PDFConverter.__init__": _pc_init2, "pdfminer.converter:XMLConverter.write_header": _wh}
+c.mod("self.*")
+c.may_raise(real_module("pdfminer.pdfexceptions").PDFValueError, lambda codec, binary: binary == (not codec))
+c.ens("arguments-forwarded-binary-sink-needs-a-codec-text-sink-none-header-written-last", lambda self, rsrcmgr, outfp, codec, pageno, laparams, imagewriter, stripcontrol, trace: (
+    len(trace) == 2 and trace[0][1]["outfp"] == outfp and trace[0][1]["codec"] == codec and trace[0][1]["pageno"] == pageno and trace[0][1]["laparams"] == laparams
+    and trace[1][0].endswith("write_header") and self.imagewriter == imagewriter) and Iff(self.stripcontrol, stripcontrol))
+
+_dev_init = stub("pdfminer.pdfdevice:PDFDevice.__init__", ["self", "rsrcmgr"])
+c = contract("pdfminer.converter:PDFLayoutAnalyzer.__init__", props=["C11", "C08"])
+c.param("self", T.Obj("pdfminer.converter:PDFLayoutAnalyzer")).param("rsrcmgr", T.Const("rm")).param("pageno", T.OneOf(1, 7)).param("laparams", T.OneOf(None, "the-laparams"))
+c.skip_cross = True
+c.inline = True
+c.stubs = {"pdfminer.pdfdevice:PDFDevice.__init__": _dev_init, "pdfminer.pdfdevice:PDFTextDevice.__init__": _dev_init}
+c.mod("self.*")
+c.ens("page-number-layout-parameters-stored-empty-figure-stack", lambda self, pageno, laparams, trace: (
+    len(trace) == 1 and trace[0][1]["rsrcmgr"] == "rm" and self.pageno == pageno and self.laparams == laparams and self._stack == []))
+
+_la_init2 = stub("pdfminer.converter:PDFLayoutAnalyzer.__init__", ["self", "rsrcmgr", "pageno", "laparams"])
+_la_init2.defaults = {"pageno": 1, "laparams": None}
+c = contract("pdfminer.converter:PDFPageAggregator.__init__", props=["C11", "C08", "C12"])
+c.param("self", T.Obj("pdfminer.converter:PDFPageAggregator")).param("rsrcmgr", T.Const("rm")).param("pageno", T.OneOf(1, 7)).param("laparams", T.OneOf(None, "the-laparams"))
+c.skip_cross = True
+c.inline = True
+c.stubs = {"pdfminer.converter:PDFLayoutAnalyzer.__init__": _la_init2}
+c.mod("self.*")
+c.ens("arguments-forwarded-no-result-yet", lambda self, pageno, laparams, trace: (
+    len(trace) == 1 and trace[0][1]["rsrcmgr"] == "rm" and trace[0][1]["pageno"] == pageno and trace[0][1]["laparams"] == laparams and self.result is None))
+
+c = contract("pdfminer.converter:PDFPageAggregator.receive_layout", props=["C11", "C08", "C12"])
+c.param("self", T.Obj("pdfminer.converter:PDFPageAggregator", result=T.OneOf(None, "previous-page"))).param("ltpage", T.Const("this-page"))
+c.skip_cross = True
+c.inline = True
+c.mod("self.result")
+c.ens("the-page-just-finished-is-the-result", lambda self: self.result == "this-page")
+
+c = contract("pdfminer.converter:PDFPageAggregator.get_result", props=["C11", "C08", "C12"])
+c.param("self", T.Obj("pdfminer.converter:PDFPageAggregator", result=T.Const("this-page")))
+c.skip_cross = True
+c.inline = True
+c.returns(T.Opaque("page"))
+c.ens("hands-out-the-stored-page-unchanged", lambda self, result: result == "this-page" and self.result == "this-page")
